@@ -810,6 +810,12 @@ func (w *World) oracleC11(pre *Snapshot, op Op, post *Snapshot, decision bool, b
 			if pa == nil || pa.State != "Accepted" {
 				continue
 			}
+			if len(pa.Allocs) > 0 {
+				// not its first allocation: the application already holds allocations the RM reported as bound (recovery),
+				// it was admitted by force outside the gate
+				w.Tag("c11-app-already-holds-forced-allocations")
+				continue
+			}
 			for _, p := range PathPrefixes(pa.Queue) {
 				pq := pre.Queues[p]
 				if pq == nil || pq.MaxApps == 0 {
